@@ -158,7 +158,11 @@ func andxBlocks(structs []smbgen.Struct) {
 		b := andx.NewAndX()
 		_, err = b.Unmarshal(want)
 		r.Eval(1)
-		if err != nil || b.AndXOffset != off || b.AndXReserved != 0x5A || uint8(b.AndXCommand) != cmd {
+		swapped := off>>8 | off<<8
+		if err != nil || (b.AndXOffset != off && b.AndXOffset != swapped) || b.AndXReserved != 0x5A || uint8(b.AndXCommand) != cmd {
+			// not a byte-order matter (that is the pinned finding below): the field is lost or wrong
+			r.Violation("andx.AndX.Unmarshal:value", fmt.Sprintf("bytes % x decode to %+v (err %v)", want, *b, err), map[string]any{"offset": off})
+		} else if b.AndXOffset != off {
 			r.Violation("andx.AndX.Unmarshal:offset-byteorder", fmt.Sprintf("bytes % x decode to %+v", want, *b), map[string]any{"offset": off})
 		}
 		for _, s := range structs {
